@@ -7,6 +7,8 @@ package harness
 
 import (
 	"fmt"
+	"github.com/cosmos/cosmos-sdk/x/params"
+	paramproposal "github.com/cosmos/cosmos-sdk/x/params/types/proposal"
 	"math/big"
 	"os"
 	"sort"
@@ -62,6 +64,11 @@ type csOp struct {
 	Deadline int64     `json:"deadline,omitempty"`
 	Params   *csParams `json:"params,omitempty"`
 	Bad      string    `json:"bad,omitempty"` // for kind invalid: which malformation
+	// Legacy (kind setparams): the parameters are changed the way a legacy ParameterChangeProposal does it - the params
+	// module's proposal handler writes each field straight into the coinswap subspace (per-field validator only), without
+	// going through the coinswap message server or keeper.SetParams.  app.go registers that route, so it is a parameter
+	// setting "governance can enact".
+	Legacy bool `json:"legacy,omitempty"`
 }
 type csCase struct {
 	Params csParams            `json:"params"`
@@ -386,6 +393,9 @@ func (w *csWorld) exec1(ctx sdk.Context, op csOp) (bool, []*big.Int) {
 		case "donate":
 			return w.a.BankKeeper.SendCoins(c, w.accts[sender], w.accts[op.Rec], sdk.NewCoins(coin(op.Din, op.A[0])))
 		case "setparams":
+			if op.Legacy {
+				return w.legacyParamChange(c, w.toParams(*op.Params))
+			}
 			_, err := ms.UpdateParams(c, &coinswaptypes.MsgUpdateParams{Authority: authtypes.NewModuleAddress(govtypes.ModuleName).String(), Params: w.toParams(*op.Params)})
 			return err
 		case "invalid":
@@ -421,6 +431,30 @@ func (w *csWorld) exec1(ctx sdk.Context, op csOp) (bool, []*big.Int) {
 		csDebug[op.Kind+": "+msg]++
 	}
 	return err == nil, resp
+}
+
+// legacyParamChange: what the gov module does for a passed ParameterChangeProposal on the coinswap subspace
+func (w *csWorld) legacyParamChange(c sdk.Context, p coinswaptypes.Params) error {
+	amino := w.a.LegacyAmino()
+	var changes []paramproposal.ParamChange
+	for _, kv := range []struct {
+		key string
+		val interface{}
+	}{
+		{string(coinswaptypes.KeyFee), p.Fee},
+		{string(coinswaptypes.KeyPoolCreationFee), p.PoolCreationFee},
+		{string(coinswaptypes.KeyTaxRate), p.TaxRate},
+		{string(coinswaptypes.KeyMaxStandardCoinPerPool), p.MaxStandardCoinPerPool},
+		{string(coinswaptypes.KeyMaxSwapAmount), p.MaxSwapAmount},
+	} {
+		bz, err := amino.MarshalJSON(kv.val)
+		if err != nil {
+			return err
+		}
+		changes = append(changes, paramproposal.NewParamChange(coinswaptypes.ModuleName, kv.key, string(bz)))
+	}
+	h := params.NewParamChangeProposalHandler(w.a.ParamsKeeper)
+	return h(c, paramproposal.NewParameterChangeProposal("verif", "legacy parameter change", changes))
 }
 
 var csDebug = map[string]int{}
@@ -1019,6 +1053,10 @@ func (e *Env) csGenOp(w *csWorld, o csObs, now *big.Int, prop string) csOp {
 		op.A = []string{maxIn.String(), thr.String()}
 	case "setparams":
 		op.Kind = "setparams"
+		op.Legacy = e.Chance(0.4)
+		if op.Legacy {
+			e.Stats.Count("setparams:legacy-parameter-change-proposal-route")
+		}
 		np := e.csGenParams(w, csTypicalFund(o))
 		if e.Chance(0.5) { // change only caps / whitelist, keep the rest
 			np.Fee, np.Tax, np.CfeeAmt, np.CfeeDenom = o.params.Fee, o.params.Tax, o.params.CfeeAmt, o.params.CfeeDenom
